@@ -4,7 +4,6 @@ import (
 	"bufio"
 	"fmt"
 	"os"
-	"reflect"
 	"strings"
 	"sync"
 	"unicode/utf8"
@@ -17,7 +16,6 @@ import (
 	"src.elv.sh/pkg/eval/vals"
 	"src.elv.sh/pkg/eval/vars"
 	"src.elv.sh/pkg/parse"
-	"src.elv.sh/pkg/persistent/hash"
 	"src.elv.sh/pkg/strutil"
 	"src.elv.sh/pkg/ui"
 )
@@ -173,19 +171,9 @@ func (c complexItem) IterateKeys(f func(any) bool) {
 
 func (c complexItem) Kind() string { return "map" }
 
-func (c complexItem) Equal(a any) bool {
-	rhs, ok := a.(complexItem)
-	return ok && c.Stem == rhs.Stem &&
-		c.CodeSuffix == rhs.CodeSuffix && reflect.DeepEqual(c.Display, rhs.Display)
-}
-
-func (c complexItem) Hash() uint32 {
-	h := hash.DJBInit
-	h = hash.DJBCombine(h, hash.String(c.Stem))
-	h = hash.DJBCombine(h, hash.String(c.CodeSuffix))
-	// TODO: Add c.Display
-	return h
-}
+// complexItem has no Equal and Hash methods of its own: it is a field map
+// (all fields are exported), so the generic field map implementations apply,
+// which makes it equal to, and hash the same as, a map with the same entries.
 
 func (c complexItem) Repr(indent int) string {
 	// TODO(xiaq): Pretty-print when indent >= 0
